@@ -13,8 +13,8 @@ Import ListNotations.
 
 Definition P_ALIGN : nat := Z.to_nat CONT_IWPOOL_UNIT_ALIGN_SIZE.
 Definition P_POOL_SIZ : nat := Z.to_nat CONT_IWPOOL_POOL_SIZ.
-(* sizeof(char* ) of the 64-bit build the harness runs on *)
-Definition P_PTR_SIZE : nat := 8.
+(* sizeof(char* ) of the build the harness runs on (T1 fact) *)
+Definition P_PTR_SIZE : nat := Z.to_nat CONT_sizeof_charptr.
 
 Record pool := mkPool { p_usiz : nat; p_asiz : nat; p_units : list nat }.
 
@@ -67,7 +67,10 @@ Definition p_cstrarr (p : pool) (lens : list nat) : pool * list region :=
   end.
 
 (* ---------------------------------------------------------------- call sequences *)
-Inductive pop := PAlloc (n : nat) | PStrdup (len : nat) | PCstrarr (lens : list nat).
+(* PAlloc also stands for iwpool_calloc (same arithmetic, the region is zeroed), PStrdup for iwpool_strndup / strndup2 / strdup /
+   strdup2 and for iwpool_printf / iwpool_printf_va of a text of len bytes (one block of len + 1), PAllocs for a call that
+   makes several requests in a row: iwpool_split_string / iwpool_printf_split ask for the sizes UT/PoolStr.split_sizes *)
+Inductive pop := PAlloc (n : nat) | PStrdup (len : nat) | PCstrarr (lens : list nat) | PAllocs (ns : list nat).
 
 (* the regions handed out by one call *)
 Definition p_step (p : pool) (op : pop) : pool * list region :=
@@ -75,6 +78,7 @@ Definition p_step (p : pool) (op : pop) : pool * list region :=
   | PAlloc n => let '(p', r) := p_alloc_r p n in (p', [r])
   | PStrdup len => let '(p', r) := p_alloc_r p (len + 1) in (p', [r])
   | PCstrarr lens => p_cstrarr p lens
+  | PAllocs ns => p_allocs p ns
   end.
 
 (* final pool and all regions handed out, in order *)
